@@ -4,7 +4,7 @@
 (* its return values and - through Seek(0, SeekCurrent) probes - its cursor must be those the  *)
 (* machine produces.  The behaviour of the underlying writer (bytes accepted, failure) is read *)
 (* from the log; everything else is computed by the specification.                             *)
-EXTENDS SectionWriter, TraceIO
+EXTENDS SectionWriter, TraceIO, SWEnv
 
 VARIABLES l
 tvars == <<base, limit, cur, calls, ret, l>>
@@ -12,17 +12,16 @@ tvars == <<base, limit, cur, calls, ret, l>>
 Ev == Trace[l]
 IsEvent(k) == l <= Len(Trace) /\ Ev.k = k /\ Ev.abn = "" /\ l' = l + 1
 
-\* what the environment did during this call
-EnvK == IF Ev.under = <<>> THEN 0 ELSE Ev.under[1].k
-EnvE == IF Ev.under = <<>> THEN FALSE ELSE Ev.under[1].e
+\* what the environment did during this call (SWEnv: a request may be passed on in several adjacent pieces)
+EnvK == EnvKOf(Ev.under)
+EnvE == EnvEOf(Ev.under)
 
-NonEmpty(cs) == SelectSeq(cs, LAMBDA c : Len(c.p) > 0)
 \* the observable outcome equals the machine's
 \* io.ErrShortWrite and the underlying writer's error are fixed by the property; for a rejected Seek it only
 \* says "rejecting": any non-nil error is accepted there
 ErrMatches(logged, model) == IF model \in {"Whence", "Offset"} THEN logged # "nil" ELSE logged = model
 Matches == /\ Ev.rn = ret'.n /\ ErrMatches(Ev.err, ret'.err)
-           /\ NonEmpty(Ev.under) = NonEmpty(calls')      \* (a call that offers no bytes may or may not be made)
+           /\ UnderOK(Ev.under, calls')
            /\ (Ev.cur >= 0 => Ev.cur = cur')          \* the cursor itself, through the verif hook
            /\ Confined' /\ CursorNotBeforeBase'
 
@@ -36,12 +35,15 @@ TraceNew     == IsEvent("New")     /\ Ev.n >= 0 /\ New(0, Ev.n) /\ Ev.under = <<
 TraceNewEnd  == IsEvent("NewEnd")  /\ Ev.n = Inf /\ New(0, Inf) /\ Ev.under = <<>>
 TraceNewAt   == IsEvent("NewAt")   /\ Ev.room >= 0 /\ NewAtRoom(Ev.room) /\ Ev.under = <<>>
 \* (the scripted writer never fails a call that offers no bytes, see the driver)
-TraceWrite   == IsEvent("Write")   /\ Len(Ev.under) <= 1 /\ Write(Ev.p, EnvK, EnvE) /\ Matches
-TraceWriteAt == IsEvent("WriteAt") /\ Len(Ev.under) <= 1 /\ WriteAt(Ev.p, Ev.off, EnvK, EnvE) /\ Matches
+TraceWrite   == IsEvent("Write")   /\ Write(Ev.p, EnvK, EnvE) /\ Matches
+TraceWriteAt == IsEvent("WriteAt") /\ WriteAt(Ev.p, Ev.off, EnvK, EnvE) /\ Matches
+\* buffers of 2^30 bytes and more, given by their length (all bytes zero; the log holds lengths only)
+TraceWriteL   == IsEvent("WriteL")   /\ Ev.n >= 0 /\ WriteL(Ev.n, EnvK, EnvE) /\ Matches
+TraceWriteAtL == IsEvent("WriteAtL") /\ Ev.n >= 0 /\ WriteAtL(Ev.n, Ev.off, EnvK, EnvE) /\ Matches
 TraceSeek    == IsEvent("Seek")    /\ Seek(Ev.off, Ev.w) /\ Matches
 TraceSize    == IsEvent("Size")    /\ Size /\ Matches
 
 TraceInit == base = 0 /\ limit = 0 /\ cur = 0 /\ calls = <<>> /\ ret = [n |-> 0, err |-> "nil"] /\ l = 1
-TraceNext == TraceNew \/ TraceNewEnd \/ TraceNewAt \/ TraceWrite \/ TraceWriteAt \/ TraceSeek \/ TraceSize
+TraceNext == TraceNew \/ TraceNewEnd \/ TraceNewAt \/ TraceWrite \/ TraceWriteAt \/ TraceWriteL \/ TraceWriteAtL \/ TraceSeek \/ TraceSize
 TraceSpec == TraceInit /\ [][TraceNext]_tvars
 ===================================================================================
